@@ -506,6 +506,34 @@ def deciders(rng, rec):
                 _viol("decider-random_float-not-float:BaseDecider", {"result": core.short(f)})
         except BaseException as e:  # noqa
             _viol(f"decider-primitive-raises:BaseDecider:{type(e).__name__}", {"error": core.short(e)})
+    # the string primitive of the decider interface: a string of the drawn characters (codes 32..128), the same for the same seed
+    seed = rng.randrange(10**6)
+    texts = []
+    for _ in range(2):
+        d = Plain(core_native(pyrandom.Random(seed)), None)
+        try:
+            texts.append([d.random_str() for _ in range(4)])
+        except BaseException as e:  # noqa
+            _viol(f"decider-primitive-raises:BaseDecider:random_str:{type(e).__name__}", {"error": core.short(e)})
+            return
+    rec.count("decider_random_str")
+    rs = sources.RecordingSource(seed)
+    d = Plain(rs, None)
+    for _ in range(4):
+        before = len(rs.calls)
+        t = d.random_str()
+        drawn = [c for c in rs.calls[before:] if c[0] == "randint" and tuple(c[1:3]) == (32, 128)]
+        if type(t) is str and len(drawn) != len(t):
+            # every character of the result is a draw from the source: a result that is longer (or shorter) than what was
+            # drawn was not made from the source
+            _viol("decider-random_str-not-made-of-the-drawn-characters:BaseDecider", {"result": core.short(t, 80), "characters_drawn": len(drawn), "length": len(t)})
+            break
+    for t in texts[0]:
+        if type(t) is not str or any(not (32 <= ord(c) <= 128) for c in t):
+            _viol("decider-random_str-not-a-string-of-drawn-characters:BaseDecider", {"result": core.short(t, 80)})
+            break
+    if texts[0] != texts[1]:
+        _viol("decider-random_str-differs-for-the-same-seed:BaseDecider", {"first": core.short(texts[0], 80), "second": core.short(texts[1], 80)})
 
 
 def decider_exhaustive(case, rec):
@@ -580,6 +608,10 @@ def dsge_decider(rng, rec):
         v = d.random_bool()
         if type(v) is not bool:
             _viol("decider-random_bool-not-bool:DynamicSGEDecider", {"result": core.short(v)})
+        t = d.random_str()
+        _r().count("decider_random_str")
+        if type(t) is not str or len(t) > getattr(d, "max_string_length", 128) or any(not (32 <= ord(c) <= 128) for c in t):
+            _viol("decider-random_str-not-made-of-the-drawn-characters:DynamicSGEDecider", {"result": core.short(t, 80), "length": len(t) if type(t) is str else None})
     except BaseException as e:  # noqa
         _viol(f"decider-primitive-raises:DynamicSGEDecider:{type(e).__name__}", {"error": core.short(e)})
 
